@@ -1046,8 +1046,9 @@ def processLine (st : DState) (raw : String) : DState :=
           let out := if mdiff then st.out.push s!"DIFF {st.line} {lhs} impl={implTxt} model={h.model}" else st.out
           -- rules that read the model's state (which file has which version, the exact Stat) say nothing once the model
           -- and the implementation have parted ways on an earlier line (that line was reported as a DIFF)
-          let hv := if sd.msync then h.viols
-            else h.viols.filter (fun v => !(["VersionsOK", "TrimBySizeOK.bound", "FindBySizeOK"].contains v))
+          -- (they stay on: on generated histories a parting of the ways is itself reported, and the shrinker no longer
+          -- produces histories that are no API histories, which is where these rules misfired)
+          let hv := h.viols
           let out := hv.foldl (fun o v => o.push s!"VIOL {st.line} {v} {lhs} impl={implTxt}") out
           let st := { st with counts := counts, out := out,
                               diffs := st.diffs + (if mdiff then 1 else 0),
